@@ -19,10 +19,10 @@
   and values, ACL identifiers, quota roots ...): wherever the relation uses `EncString`,
   `EncNString` or `EncAString`, the literal form with arbitrary NUL-free content is admitted.
   The NUL exclusion is the code's (`is_char8`), and is itself a theorem: `literal_refuses_nul`.
-  The codec path (frames cut at the parser's length) is C04's theorem plus the look-alike family of
-  the correspondence run.
+  Through the codec: `codec_cuts_at_encoding` and `codec_frames_are_the_responses` (any chunking).
 -/
 import ImapVerif.Proofs.RTResp
+import ImapVerif.Proofs.CodecRT
 
 open Bytes Parser Grammar RT
 
@@ -92,6 +92,24 @@ theorem literal_refuses_nul (s : Bytes) (z : Nat) (hl : s.length < 2 ^ 32) (hs :
   rw [hnum]
   simp only [tagGo, beq_self_eq_true, if_true, take_exact]
   simp [hall, errP]
+
+/-! ### through the codec -/
+
+/-- the codec cuts the frame at the length of the encoding, whatever its literals contain -/
+theorem codec_cuts_at_encoding (r : Response) (e : Bytes) (h : EncResponse r e) (rest : Bytes) :
+    Client.decodeC (e ++ rest) = .frame ⟨e, r⟩ rest := CodecRT.decodeC_enc r e h rest
+
+/-- **message content cannot desynchronise the connection**: a transport that delivers the encodings
+    of `items` - cut into reads in any way, with Pending anywhere - makes the framed codec deliver
+    exactly those responses (value and bytes), in order; what follows them is framed as if it
+    stood alone.  There is no hypothesis on the contents of literals beyond NUL-freeness. -/
+theorem codec_frames_are_the_responses (k : Nat) (rs : List Client.REv) (res : List Client.PollR) (s' : Client.Rd)
+    (rs' : List Client.REv) (items : List (Response × Bytes)) (hall : ∀ x ∈ items, EncResponse x.1 x.2)
+    (tail : Bytes) (hdata : Framed.dataOf rs = (items.map (·.2)).flatten ++ tail)
+    (h : Framed.polls k {} rs = (res, s', rs')) (hne : ∀ r ∈ res, r ≠ .item .error) :
+    Framed.framesOf res ++ Framed.ideal (s'.rbuf ++ Framed.dataOf rs') =
+      CodecRT.framesOfEncs items ++ Framed.ideal tail :=
+  CodecRT.frames_of_encoded_stream k rs res s' rs' items hall tail hdata h hne
 
 /-! ### non-vacuity: a protocol look-alike as content -/
 
